@@ -2,7 +2,6 @@ package main
 
 import (
 	"fmt"
-	"go/ast"
 	"go/token"
 	"go/types"
 	"strings"
@@ -140,11 +139,9 @@ func (e *Exec) streamRun(fr *Frame, st *BState, x *ssa.Call) SV {
 	c := x.Call
 	streamCount[fr.fn]++
 	ord := streamCount[fr.fn]
-	var invs []ast.Expr
-	if ct := e.contracts[fr.fn]; ct != nil {
-		for _, i := range ct.StreamInv[ord] {
-			invs = append(invs, i)
-		}
+	var invs []Clause
+	if ct := e.contractOf(fr.fn); ct != nil {
+		invs = ct.StreamInv[ord]
 	}
 	pf, pmc := traceClosure(c.Args[1])
 	mf, mmc := traceClosure(c.Args[2])
@@ -162,7 +159,7 @@ func (e *Exec) streamRun(fr *Frame, st *BState, x *ssa.Call) SV {
 	// init
 	for i, inv := range invs {
 		env := e.specEnv(fr, st, nil)
-		e.obligeNamed(st, fmt.Sprintf("stream%d.inv%d.init", ord, i+1), x.Pos(), scal(env.eval(inv)))
+		e.obligeNamed(st, fmt.Sprintf("stream%d.%s.init", ord, clauseLabel(inv, "inv", i)), x.Pos(), scal(env.eval(inv.Expr)))
 	}
 	// havoc what the callbacks may write + ghost traces
 	keys := map[string]bool{}
@@ -220,12 +217,12 @@ func (e *Exec) streamRun(fr *Frame, st *BState, x *ssa.Call) SV {
 	e.note(fmt.Sprintf("stream %d of %s: havoc %v", ord, fr.fn.Name(), havocd))
 	for _, inv := range invs {
 		env := e.specEnv(fr, st, nil)
-		e.assume(implies(st.reach, scal(env.eval(inv))))
+		e.assume(implies(st.reach, scal(env.eval(inv.Expr))))
 	}
-	if ct := e.contracts[fr.fn]; ct != nil {
+	if ct := e.contractOf(fr.fn); ct != nil {
 		for _, a := range ct.StreamAssume[ord] {
 			env := e.specEnv(fr, st, nil)
-			e.assume(implies(st.reach, scal(env.eval(a))))
+			e.assume(implies(st.reach, scal(env.eval(a.Expr))))
 		}
 	}
 	arm := e.fresh("stream.arm", SInt)
@@ -242,10 +239,10 @@ func (e *Exec) streamRun(fr *Frame, st *BState, x *ssa.Call) SV {
 		e.assumeAllocated(s, argT, ev, s.reach)
 		e.ghostAppend(s, inTrace, argT, ev)
 		// input assumptions of the property (e.g. "valid changelog") hold after every delivered event
-		if ct := e.contracts[fr.fn]; ct != nil {
+		if ct := e.contractOf(fr.fn); ct != nil {
 			for _, a := range ct.StreamAssume[ord] {
 				env := e.specEnv(fr, s, nil)
-				e.assume(implies(s.reach, scal(env.eval(a))))
+				e.assume(implies(s.reach, scal(env.eval(a.Expr))))
 			}
 		}
 		pctx := e.freshSV(pctxT, "stream.pctx", s.reach, false)
@@ -274,7 +271,7 @@ func (e *Exec) streamRun(fr *Frame, st *BState, x *ssa.Call) SV {
 		bs.reach = and(out.reach, not(isErr))
 		for i, inv := range invs {
 			env := e.specEnv(fr, bs, nil)
-			e.obligeNamed(bs, fmt.Sprintf("stream%d.inv%d.preserved[%s]", ord, i+1, inTrace), token.NoPos, scal(env.eval(inv)))
+			e.obligeNamed(bs, fmt.Sprintf("stream%d.%s.preserved[%s]", ord, clauseLabel(inv, "inv", i), inTrace), token.NoPos, scal(env.eval(inv.Expr)))
 		}
 		// exit with the callback's error (wrapped): result non-nil
 		xs := out.clone()
